@@ -34,7 +34,7 @@ theorem columnsOf_append {V : Type} (a b : List (Option (Option V))) : columnsOf
 theorem selVars_refines (env : Env N) (ctx : Ctx N) (cur : Row N) (sel : List (SelItem N)) (st : Store N) (acc : Row N)
     (out : Row N) (st' : Store N) (reads : List (Option (Val N)))
     (h : selVars env ctx cur sel st acc = .ok (out, st', reads)) :
-    ∃ ops, rowOps env ctx cur sel = .ok ops ∧ st' = (run st ops).1 ∧ reads = columnsOf (run st ops).2 := by
+    ∃ ops, rowOps env ctx cur sel st = .ok ops ∧ st' = (run st ops).1 ∧ reads = columnsOf (run st ops).2 := by
   induction sel generalizing st acc reads with
   | nil =>
     simp only [selVars] at h
@@ -50,12 +50,12 @@ theorem selVars_refines (env : Env N) (ctx : Ctx N) (cur : Row N) (sel : List (S
       | error e => rw [hk] at h; cases h
       | ok key =>
         rw [hk] at h; simp only [] at h ⊢
-        cases hv : argVal env ctx cur a with
+        cases hv : argVal env ctx cur (substGet st a) with
         | error e => rw [hv] at h; cases h
         | ok v =>
           rw [hv] at h; simp only [] at h ⊢
           obtain ⟨ops, hops, hst, hr⟩ := ih _ _ _ h
-          refine ⟨.set key v :: ops, by simp [hops, pure, Except.pure], ?_, ?_⟩
+          refine ⟨.set key v :: ops, by simp [run, step, hops, pure, Except.pure], ?_, ?_⟩
           · simp only [run, step]; exact hst
           · simp only [run, step, columnsOf, List.filterMap_cons, id]; exact hr
     | get k col =>
@@ -72,18 +72,18 @@ theorem selVars_refines (env : Env N) (ctx : Ctx N) (cur : Row N) (sel : List (S
           simp only [pure, Except.pure] at h
           cases h
           obtain ⟨ops, hops, hst, hr⟩ := ih _ _ _ hrest
-          refine ⟨.get key :: ops, by simp [hops, pure, Except.pure], ?_, ?_⟩
+          refine ⟨.get key :: ops, by simp [run, step, hops, pure, Except.pure], ?_, ?_⟩
           · simp only [run, step]; exact hst
           · simp only [run, step, columnsOf, List.filterMap_cons, id]
             rw [hr]; rfl
     | other it' =>
       simp only [hc, bind, Except.bind] at h ⊢
-      cases hs : evalSel env ctx cur [it'] acc with
+      cases hs : evalSel env ctx cur [substItem st it'] acc with
       | error e => rw [hs] at h; cases h
       | ok acc' =>
         rw [hs] at h; simp only [] at h
         obtain ⟨ops, hops, hst, hr⟩ := ih _ _ _ h
-        exact ⟨ops, by simp [hops, pure, Except.pure], hst, hr⟩
+        exact ⟨ops, by simp [run, step, hops, pure, Except.pure], hst, hr⟩
 
 /-- **the whole query**: rows in source order.  The map the caller gets back is the register machine's state after the
     row-major, left-to-right history; the GETVAR values are its outputs in that order — so "GETVAR returns the value
@@ -92,7 +92,7 @@ theorem selVars_refines (env : Env N) (ctx : Ctx N) (cur : Row N) (sel : List (S
 theorem query_vars_refine (env : Env N) (ctx : Ctx N) (sel : List (SelItem N)) (rows : List (Row N)) (st : Store N)
     (outs : List (Val N)) (st' : Store N) (reads : List (Option (Val N)))
     (h : rowsVars env ctx sel rows st = .ok (outs, st', reads)) :
-    ∃ ops, historyOf env ctx sel rows = .ok ops ∧ st' = (run st ops).1 ∧ reads = columnsOf (run st ops).2 ∧
+    ∃ ops, historyOf env ctx sel rows st = .ok ops ∧ st' = (run st ops).1 ∧ reads = columnsOf (run st ops).2 ∧
       outs.length = rows.length := by
   induction rows generalizing st outs reads with
   | nil =>
@@ -115,19 +115,20 @@ theorem query_vars_refine (env : Env N) (ctx : Ctx N) (sel : List (SelItem N)) (
         cases h
         obtain ⟨ops1, ho1, hs1, hr1⟩ := selVars_refines env ctx r sel st [] o s1 rd1 h1
         obtain ⟨ops2, ho2, hs2, hr2, hl⟩ := ih _ _ _ h2
-        refine ⟨ops1 ++ ops2, by simp [historyOf, ho1, ho2, bind, Except.bind, pure, Except.pure], ?_, ?_, by simp [hl]⟩
+        refine ⟨ops1 ++ ops2, by simp [historyOf, ho1, ← hs1, ho2, bind, Except.bind, pure, Except.pure], ?_, ?_, by simp [hl]⟩
         · rw [run_append]; simp only []; rw [← hs1]; exact hs2
         · rw [run_append]; simp only []; rw [columnsOf_append, ← hr1, ← hs1, ← hr2]
 
 /-- the history is row-major: all calls of a row before any call of the next one -/
 theorem history_row_major (env : Env N) (ctx : Ctx N) (sel : List (SelItem N)) (r : Row N) (rs : List (Row N))
-    (a b : List (VOp (Val N))) (ha : rowOps env ctx r sel = .ok a) (hb : historyOf env ctx sel rs = .ok b) :
-    historyOf env ctx sel (r :: rs) = .ok (a ++ b) := by
+    (st : Store N) (a b : List (VOp (Val N))) (ha : rowOps env ctx r sel st = .ok a)
+    (hb : historyOf env ctx sel rs (run st a).1 = .ok b) :
+    historyOf env ctx sel (r :: rs) st = .ok (a ++ b) := by
   simp [historyOf, ha, hb, bind, Except.bind, pure, Except.pure]
 
 /-- SETVAR items contribute no column and GETVAR items exactly one, whatever the map holds -/
 theorem selVars_other_untouched (env : Env N) (ctx : Ctx N) (cur : Row N) (it : SelItem N) (st : Store N) (acc acc' : Row N)
-    (hc : classify it = .other it) (h : evalSel env ctx cur [it] acc = .ok acc') :
+    (hc : classify it = .other it) (h : evalSel env ctx cur [substItem st it] acc = .ok acc') :
     selVars env ctx cur [it] st acc = .ok (acc', st, []) := by
   simp [selVars, hc, h, bind, Except.bind]
 
@@ -144,4 +145,12 @@ example :
        .item (.col ["a"]) "a" ""]
       [[("a", .num 5)], [("a", .num 7)]] []).toOption.map (fun t => (t.2.1, t.2.2)) =
     some ([("k", .num 7)], [none, some (.num 5)]) := by decide
+/-- a counter: `SELECT SETVAR('n', GETVAR('n') + 1) AS sv, GETVAR('n') AS n FROM t` over three rows with n = 0 — the nested read
+    sees what the previous row stored: 1, 2, 3 -/
+example :
+    (rowsVars (N := Int) { dfx := .none, constants := none } ⟨[], false, false, [], 3⟩
+      [.item (.func .none "setvar" [.str "n", .bin .plus (.func .none "getvar" [.str "n"]) (.num 1)]) "sv" "sv",
+       .item (.func .none "getvar" [.str "n"]) "n" "n"]
+      [[("a", .num 5)], [("a", .num 7)], [("a", .num 9)]] [("n", .num 0)]).toOption.map (fun t => (t.2.1, t.2.2)) =
+    some ([("n", .num 3)], [some (.num 1), some (.num 2), some (.num 3)]) := by decide
 end Genql.C20
